@@ -37,6 +37,10 @@ struct Inner {
     extra_distinct: u64,
 }
 
+thread_local! {
+    static PENDING: std::cell::RefCell<Option<Vec<Violation>>> = std::cell::RefCell::new(None);
+}
+
 pub fn verif_root() -> String {
     std::env::var("PGV_VERIF_ROOT").unwrap_or("/verif".into())
 }
@@ -145,6 +149,17 @@ impl Report {
             self.count("behavioural_alarms_under_sanitizer_not_judged", 1);
             return;
         }
+        let buffered = PENDING.with(|p| {
+            if let Some(v) = p.borrow_mut().as_mut() {
+                v.push(Violation { signature: signature.to_string(), description: description.to_string(), witness: witness.clone() });
+                true
+            } else {
+                false
+            }
+        });
+        if buffered {
+            return;
+        }
         let mut g = self.inner.lock().unwrap();
         let n = g.seen_sigs.entry(signature.to_string()).or_insert(0);
         *n += 1;
@@ -155,6 +170,37 @@ impl Report {
                 witness,
             });
         }
+    }
+    /// Runs one scenario whose oracles compare the pooler against its own real-time limits (health
+    /// check / connect / statement timeouts of a few hundred ms). Alarms raised by the calling thread
+    /// are held back until the scenario is over and are issued only if the machine did not delay the
+    /// pooler or the harness meanwhile: a responsiveness probe (admin `SHOW VERSION` every 15 ms on
+    /// every pooler the scenario starts) never took PROBE_MS or longer and no harness thread woke up
+    /// STALL_MS late. Otherwise the scenario counts as not observed
+    /// (`scenarios_not_judged_machine_overloaded`); its alarms are counted, not reported.
+    pub fn realtime_scenario<F: FnOnce() -> Result<(), String>>(&self, f: F) -> Result<(), String> {
+        const PROBE_MS: u64 = 100;
+        const STALL_MS: u64 = 80;
+        PENDING.with(|p| *p.borrow_mut() = Some(vec![]));
+        crate::pgcat::rt_probes_begin();
+        let t0 = now_ns();
+        let r = f();
+        let t1 = now_ns();
+        let probe = crate::pgcat::rt_probes_end();
+        let stall = crate::util::max_stall_ms(t0, t1);
+        self.max("max_responsiveness_probe_ms_in_a_scenario", probe);
+        self.count(&format!("scenarios_probe_ms_{}", match probe { 0..=4 => "0_4", 5..=19 => "5_19", 20..=49 => "20_49", 50..=199 => "50_199", _ => "200_up" }), 1);
+        let held = PENDING.with(|p| p.borrow_mut().take()).unwrap_or_default();
+        let overloaded = probe >= PROBE_MS || stall >= STALL_MS;
+        if overloaded && std::env::var("PGV_JUDGE_UNDER_LOAD").is_err() {
+            self.count("scenarios_not_judged_machine_overloaded", 1);
+            self.count("alarms_withheld_machine_overloaded", held.len() as u64);
+        } else {
+            for v in held {
+                self.violation(&v.signature, &v.description, v.witness);
+            }
+        }
+        r
     }
     pub fn violation_count(&self) -> usize {
         self.inner.lock().unwrap().violations.len()
@@ -189,6 +235,10 @@ impl Report {
             }
         }
         self.max("max_machine_stall_ms", crate::util::max_stall_ms(0, u64::MAX));
+        let skipped = crate::cell::JOBS_SKIPPED.load(std::sync::atomic::Ordering::SeqCst) as u64;
+        if skipped > 0 {
+            self.count("scenarios_skipped_time_budget_used_up", skipped);
+        }
         let g = self.inner.lock().unwrap();
         let root = verif_root();
         let known = load_known(&root, &self.prop);
